@@ -220,6 +220,19 @@ func (w *world) localAdd(rep *replica, snapshot bool) {
 	}
 	w.checkMode(rep, "local add "+sc.Id, before, res.Mode)
 	w.checkReplica(rep, "local add "+sc.Id)
+	// guard-directed for the loader: a locally created MERGE (several parents) is where the order id of the new
+	// change is derived from the last iterated head - answer a full sync right away with a limit that cuts
+	// between the merge change and its parents
+	if len(prevHeads) >= 2 && !w.failed && len(w.reps) >= 2 && w.r.Chance(map[bool]int{true: 35, false: 10}[focusProp == "C09"]) {
+		other := w.reps[w.r.Intn(len(w.reps))]
+		if other != rep {
+			w.r.Count("op.fullsync.after-merge")
+			w.fullSync(rep, other, []int{1, 1, len(sc.RawChange) + 1, 2*len(sc.RawChange) + 1}[w.r.Intn(4)])
+			if w.failed {
+				return
+			}
+		}
+	}
 	// broadcast a head update
 	path, _ := rep.tree.SnapshotPath()
 	for _, other := range w.reps {
@@ -263,7 +276,11 @@ func (w *world) apply(rep *replica, m message, what string) (objecttree.AddResul
 	rep.tree.Unlock()
 	if err != nil {
 		w.logf("%s rep%d<-rep%d heads=%s path=%s changes=%s ERR %v", what, rep.idx, m.from, join(m.heads), join(m.path), join(ids), err)
-		w.violate("C06", "add.error", fmt.Sprintf("%s: AddRawChanges on rep%d failed for honest input: %v", what, rep.idx, err))
+		prop := "C06"
+		if what == "response" {
+			prop = "C09" // applying the batches of an answer must attach them
+		}
+		w.violate(prop, "add.error", fmt.Sprintf("%s: AddRawChanges on rep%d failed for honest input: %v", what, rep.idx, err))
 		return res, false
 	}
 	var added []string
@@ -429,6 +446,92 @@ func (w *world) fullSync(resp, req *replica, limit int) {
 	for _, id := range storedIds(w.stored(resp)) {
 		if !have[id] {
 			w.violate("C09", "apply.complete", fmt.Sprintf("after the full sync rep%d still lacks %s held by rep%d", req.idx, id, resp.idx))
+			return
+		}
+	}
+}
+
+// interleavedSync: the real stream handler builds the loader under the tree lock, releases it, and then calls
+// NextBatch until the answer is exhausted - the responder's tree keeps changing in between (local edits, head
+// updates from other peers). Here the loader is driven step by step and the responder is mutated between the
+// steps. The answer is judged against what the responder held when the loader was created.
+func (w *world) interleavedSync(resp, req *replica, limit int) {
+	heads := append([]string{}, req.tree.Heads()...)
+	path, _ := req.tree.SnapshotPath()
+	path = append([]string{}, path...)
+	reqSet := idSet(storedIds(w.stored(req)))
+	at := w.respNow(resp)
+	w.logf("interleaved-sync rep%d asks rep%d heads=%s path=%s limit=%d", req.idx, resp.idx, join(heads), join(path), limit)
+	w.r.Count("op.interleaved")
+	resp.tree.Lock()
+	it, err := resp.tree.ChangesAfterCommonSnapshotLoader(path, heads)
+	resp.tree.Unlock()
+	if err != nil {
+		w.violate("C09", "loader.error", fmt.Sprintf("loader of rep%d failed for request heads=%s path=%s: %v", resp.idx, join(heads), join(path), err))
+		return
+	}
+	mutate := func() {
+		if w.failed || !w.r.Chance(65) {
+			return
+		}
+		// a head update waiting for the responder, else a local edit
+		for i, m := range w.queue {
+			if m.to == resp.idx && w.r.Chance(50) {
+				w.queue = append(w.queue[:i], w.queue[i+1:]...)
+				w.apply(resp, m, m.kind)
+				w.r.Count("interleaved.mutation.remote")
+				return
+			}
+		}
+		w.localAdd(resp, w.r.Chance(10))
+		w.r.Count("interleaved.mutation.local")
+	}
+	var batches []loaderBatch
+	for guard := 0; guard < 100000 && !w.failed; guard++ {
+		mutate()
+		if w.failed {
+			return
+		}
+		b, err := it.NextBatch(limit)
+		if err != nil {
+			w.violate("C09", "loader.error", fmt.Sprintf("NextBatch of rep%d failed: %v", resp.idx, err))
+			return
+		}
+		if len(b.Batch) == 0 {
+			break
+		}
+		lb := loaderBatch{heads: append([]string{}, b.Heads...), path: append([]string{}, b.SnapshotPath...), raw: b.Batch}
+		for _, c := range b.Batch {
+			lb.ids = append(lb.ids, c.Id)
+			lb.sizes = append(lb.sizes, len(c.RawChange))
+		}
+		w.logf("  batch %d: ids=%s heads=%s", len(batches)+1, join(lb.ids), join(lb.heads))
+		batches = append(batches, lb)
+	}
+	if w.failed {
+		return
+	}
+	w.checkBatchesAt(resp, at, reqSet, heads, path, limit, batches, "interleaved")
+	if w.failed {
+		return
+	}
+	w.corrLoaderAt(at, heads, path, limit, batches, "interleaved")
+	for bi, b := range batches {
+		w.apply(req, message{from: resp.idx, to: req.idx, kind: "response", changes: b.raw, heads: b.heads, path: b.path}, "response")
+		have := idSet(storedIds(w.stored(req)))
+		for _, id := range b.ids {
+			if !have[id] {
+				w.violate("C09", "apply.attach", fmt.Sprintf("after applying batch %d/%d of rep%d's (interleaved) answer, rep%d still lacks %s", bi+1, len(batches), resp.idx, req.idx, id))
+			}
+		}
+		if w.failed {
+			return
+		}
+	}
+	have := idSet(storedIds(w.stored(req)))
+	for _, id := range at.stored {
+		if !have[id] {
+			w.violate("C09", "apply.complete", fmt.Sprintf("after the (interleaved) full sync rep%d still lacks %s held by rep%d when it prepared the answer", req.idx, id, resp.idx))
 			return
 		}
 	}
